@@ -35,7 +35,14 @@ func TestC16Flush(t *testing.T) {
 	}
 	wm, rm := res.cm, res.sm
 	const HDR, MAC = 18, 16
+	nrec := 0
 	record := func(L int, plan []int) {
+		// every third record meets a transient non-timeout failure where
+		// the others meet a timeout: the pending record must be kept and
+		// flushed just the same
+		nrec++
+		a.HardErr = nrec%3 == 0
+		defer func() { a.HardErr = false }()
 		p := streamOf(L)
 		if err := wm.WriteMessage(p); err != nil {
 			t.Fatalf("WriteMessage: %v", err)
